@@ -130,6 +130,7 @@ var callOps = map[string]func(callReq) (interface{}, error){
 		}
 		return map[string]interface{}{"vals": encVals(rec)}, nil
 	},
+	"sqlparse": func(r callReq) (interface{}, error) { return sqlParse(r.SQL), nil },
 	"header": func(r callReq) (interface{}, error) {
 		b, err := hex.DecodeString(r.Hex)
 		if err != nil {
